@@ -33,6 +33,10 @@ prop(
          "the filter (files outside do not exist, rename to outside = deletion, rename from outside = creation whose rules must all be "
          "changed rules); the path pool holds a file 'alerts' and a file 'alerts/g.yaml' that exclude each other, and a file-dir commit pair "
          "deletes one and creates the other in the next commit (file replaced by a directory of its name and the reverse); "
+         "one case in four runs with parser { relaxed = [...] } matching every path of the vocabulary (but not the empty string): files "
+         "may then be bare rule lists (valid only in relaxed mode) and a cosmetic edit may switch a file between the grouped and the bare "
+         "form; a path-reuse sequence uses one path three times (delete P; rename Q->P; rename P->Z; re-create P with its fork-point or an "
+         "edited content - the re-creation revives the original P); "
          "and optionally 1-2 further commits on main after the fork. Built with git fast-import + checkout in a scratch repository; "
          "pint's GlobFinder + GitBranchFinder (as wired in cmd/pint/ci.go) classify every HEAD rule; the reference compares each HEAD "
          "file with the fork-point version of its origin (followed through the branch's renames) by rule content with multiplicities; "
